@@ -200,9 +200,25 @@ func (s *Server) processOutbox() {
 	for {
 		t := <-s.outbox
 		verifhook.Event("outbox.dequeued", s, t.ClientID, uint32(t.Type[0])<<8|uint32(t.Type[1]))
+
+		// Transactions for one client must reach its connection in the order they were queued and one at a time:
+		// each send first waits for the previous send to the same client (prev) and then signals its own
+		// completion (done).  Sends to different clients still proceed concurrently.
+		var prev, done chan struct{}
+		if client := s.ClientMgr.Get(t.ClientID); client != nil {
+			prev, done = client.sendTail, make(chan struct{})
+			client.sendTail = done
+		}
+
 		go func() {
+			if prev != nil {
+				<-prev
+			}
 			if err := s.sendTransaction(t); err != nil {
 				s.Logger.Error("error sending transaction", "err", err)
+			}
+			if done != nil {
+				close(done)
 			}
 			verifhook.Event("outbox.sent", s, t.ClientID, uint32(t.Type[0])<<8|uint32(t.Type[1]))
 		}()
